@@ -25,7 +25,9 @@ EXPLANATION = (
     "and zero guard in Term.substitute_contracted / substitute_with_generic (+ expand_itmd, "
     "reduce_expr). R08f: decision tables of order_substitutions (all 625 maps on 4 indices incl. "
     "chains, cycles, many-to-one: sequential application equals the simultaneous map) and "
-    "get_lowest_avail_indices / split_idx_string / index_space on small inputs.")
+    "get_lowest_avail_indices / split_idx_string / index_space on small inputs. R08g: "
+    "minimize_tensor_indices on all 620 index tuples of length <= 3 over {i,j,k,a,b} x 4 target sets: targets stay, the other "
+    "indices get the lowest unused names in order of first appearance, and the returned permutations reproduce the result.")
 ASSUMPTIONS = [
     "R08f is evaluated on all index maps over four indices and small name sets (bounded, not exhaustive)",
     "sympy's subs applies a list of pairs sequentially",
@@ -485,6 +487,67 @@ def r08f(ctx):
                   f"{[s.name for s in state]}", key=f"permute {perms}")
 
 
+def r08g(ctx):
+    """minimize_tensor_indices on all index tuples of length <= 3 over {i,j,k,a,b}"""
+    rule = "R08g"
+    import itertools
+    fn = ctx.model.fn("indices:minimize_tensor_indices")
+    gl = ctx.model.fn("indices:get_lowest_avail_indices")
+    base = {"occ": "ijklmno", "virt": "abcdefgh", "general": "pqrstuvw"}
+    space = {c: sp for sp, letters in base.items() for c in letters}
+    pool = {}
+
+    def sym(name):
+        if name not in pool:
+            sp = space[name[0]]
+            pool[name] = Rec("Index", name=name, space=sp, spin="", space_and_spin=(sp, ""))
+        return pool[name]
+
+    def get_symbols(i, node, a, kw):
+        return [sym(n) for n in a[0]]
+
+    def lowest(i, node, a, kw):
+        k, v = Interp({"Indices": Rec("Indices", base=base)}, what="get_lowest_avail_indices").call(
+            gl, {"n": a[0], "used": list(a[1]), "space": a[2]})
+        return v
+    env = {"get_symbols": get_symbols, "get_lowest_avail_indices": lowest,
+           "Permutation": lambda i, node, a, kw: (a[0], a[1]), "PermutationProduct": lambda i, node, a, kw: list(a[0])}
+    names = ["i", "j", "k", "a", "b"]
+    targets_list = [{}, {("occ", ""): ["j"]}, {("occ", ""): ["i"], ("virt", ""): ["a"]}, {("occ", ""): ["k", "j"]}]
+    n = 0
+    for length in (1, 2, 3):
+        for tpl in itertools.product(names, repeat=length):
+            for tg in targets_list:
+                n += 1
+                inp = tuple(sym(x) for x in tpl)
+                kind, val = Interp(env, what="minimize_tensor_indices").call(
+                    fn, {"tensor_indices": inp, "target_idx_names": {k: list(v) for k, v in tg.items()}})
+                label = f"{''.join(tpl)} targets={sorted(x for v in tg.values() for x in v)}"
+                if kind != "return":
+                    ctx.bad(rule, fn, f"minimize_tensor_indices raised {val} on {label}", key=f"min {label}")
+                    continue
+                res, perms = val
+                out = [r.name for r in res]
+                # (1) the permutations reproduce the result
+                cur = list(tpl)
+                for p, q in perms:
+                    cur = [q.name if c == p.name else p.name if c == q.name else c for c in cur]
+                # (2) expected: targets stay, the others get the lowest free names in order of first appearance
+                tnames = {x for v in tg.values() for x in v}
+                want_map = {}
+                free = {sp: [c for c in base[sp] if c not in tnames] for sp in base}
+                for x in tpl:
+                    if x in want_map:
+                        continue
+                    want_map[x] = x if x in tnames else free[space[x[0]]].pop(0)
+                want = [want_map[x] for x in tpl]
+                ok = out == want and cur == out
+                ctx.check(rule, fn, ok, f"{label} -> {''.join(want)}",
+                          f"minimize_tensor_indices({label}) gives {''.join(out)} (permutations give {''.join(cur)}); the lowest "
+                          f"unused non-target names in order of first appearance are {''.join(want)}", key=f"min {label}")
+    ctx.floor(rule, "index tuples minimised", n, 400)
+
+
 class _IdDict(dict):
     """dict keyed by abstract records (identity)"""
 
@@ -542,6 +605,6 @@ def _show(sub):
 def run(ctx):
     if ctx.want("R08a"):
         r08a(ctx, modules=None if ctx.tier == "thorough" else {"expr_container", "indices", "simplify", "func"})
-    for r, f in (("R08b", r08b), ("R08c", r08c), ("R08d", r08d), ("R08e", r08e), ("R08f", r08f)):
+    for r, f in (("R08b", r08b), ("R08c", r08c), ("R08d", r08d), ("R08e", r08e), ("R08f", r08f), ("R08g", r08g)):
         if ctx.want(r):
             f(ctx)
